@@ -404,3 +404,13 @@ def run(facts, rep, ctx):
     round6.cf2(facts, rep, ['seq_analysis::orf::', 'alphabets::'], 70)
     round6.tb14(facts, rep)
     round6.nc3(facts, rep)
+
+
+_run_before_round7 = run
+
+
+def run(facts, rep, ctx):
+    """rules added in the sixth seeding round (rules/round7.py)"""
+    _run_before_round7(facts, rep, ctx)
+    from . import round7
+    round7.sw1(facts, rep)
